@@ -172,10 +172,22 @@ def check(run):
     iso = prog.cls(MOD + '.Isotope')
     init = prog.method(iso, '__init__', inherited=False)
     run.subject('C19-R2')
-    sup = [c for c in ast.walk(init) if isinstance(c, ast.Call) and norm(c.func) == 'super().__init__']
-    if sup and len(sup[0].args) == 4 and norm(sup[0].args[2]) == '%s.atomic_number' % init.args.args[3].arg \
-            and norm(sup[0].args[0]) == init.args.args[1].arg and norm(sup[0].args[1]) == init.args.args[2].arg \
-            and norm(sup[0].args[3]) == init.args.args[5].arg:
+    sup = [c for c in ast.walk(init) if isinstance(c, ast.Call) and norm(c.func) in ('super().__init__', 'Element.__init__')]
+    from ..inline import resolver
+    res = resolver(init)
+    got = {}
+    if sup:
+        el_init = prog.method(prog.cls(MOD + '.Element'), '__init__', inherited=False)
+        pnames = [a_.arg for a_ in el_init.args.args[1:]] if el_init is not None else ['name', 'symbol', 'atomic_number', 'atomic_weight']
+        pos = list(sup[0].args[1:] if norm(sup[0].func) == 'Element.__init__' else sup[0].args)
+        for pn, a_ in zip(pnames, pos):
+            got[pn] = norm(res(a_))
+        for k_ in sup[0].keywords:
+            if k_.arg:
+                got[k_.arg] = norm(res(k_.value))
+    ip = [a_.arg for a_ in init.args.args]
+    want = {'name': ip[1], 'symbol': ip[2], 'atomic_number': '%s.atomic_number' % ip[3], 'atomic_weight': ip[5]} if len(ip) >= 6 else None
+    if sup and want is not None and {k_: got.get(k_) for k_ in want} == want:
         run.ok('C19-R2', 'Isotope.__init__', norm(sup[0]))
     else:
         run.fail('C19-R2', K + 'Isotope.__init__|super-args', PYX, init.lineno,
@@ -322,9 +334,11 @@ def check(run):
         ci = prog.cls(cq)
         h = ci.methods.get('__hash__')
         rc = ci.methods.get('__richcmp__')
+        from ..inline import prep, class_lookup
         if rc is not None:
-            from ..inline import prep, class_lookup
             rc = prep(rc, class_lookup(prog, ci))
+        if h is not None:
+            h = prep(h, class_lookup(prog, ci))
         if h is None or rc is None:
             raise AnalysisError('C19: %s lacks __hash__/__richcmp__' % cq)
         Kc = cq.rsplit('.', 1)[0] + '|' + ci.name + '|'
